@@ -60,6 +60,7 @@ struct Rep
   bool verbose = false;
   std::map<std::string, long long> extra;
   std::map<std::string, int> seen;
+  std::map<std::pair<const void *, std::pair<const void *, const void *>>, int> site;
   std::unordered_set<uint64_t> outs;
 
   void count(const std::string &k, long long n = 1) { extra[k] += n; }
@@ -87,6 +88,13 @@ struct Rep
       if (r > worst) {
         worst = r;
         worst_at = std::string(c.type) + " " + what + " at " + c.str();
+      }
+    }
+    if (isbad && !verbose) {
+      // after the first few reports of one call site only count (keeps a badly broken tree enumerable)
+      if (site[std::make_pair((const void *)c.type, std::make_pair((const void *)what, (const void *)cls))]++ >= 6) {
+        bad++;
+        return false;
       }
     }
     if (isbad || verbose) {
